@@ -470,7 +470,7 @@ func (w *world) waitState(d time.Duration, pred func(transport.VerifClientState)
 		if time.Now().After(deadline) {
 			return false
 		}
-		time.Sleep(200 * time.Microsecond)
+		time.Sleep(time.Millisecond)
 	}
 }
 
@@ -523,7 +523,7 @@ func (w *world) sendReturned(id uint32, d time.Duration) bool {
 		if time.Now().After(deadline) {
 			return false
 		}
-		time.Sleep(200 * time.Microsecond)
+		time.Sleep(time.Millisecond)
 	}
 }
 
@@ -626,7 +626,7 @@ func (w *world) observeClose(out *outcome) bool {
 		}
 		w.mu.Unlock()
 		if !ok {
-			time.Sleep(200 * time.Microsecond)
+			time.Sleep(time.Millisecond)
 		}
 	}
 	ok = ok && w.waitState(time.Until(deadline), func(st transport.VerifClientState) bool { return st.IsClosed })
@@ -772,7 +772,7 @@ func execute(sc Scenario) (out outcome) {
 			if n >= 2 {
 				break
 			}
-			time.Sleep(200 * time.Microsecond)
+			time.Sleep(time.Millisecond)
 		}
 		time.Sleep(delay)
 		wait(w.startCall(id(), true))
@@ -1202,7 +1202,7 @@ func main() {
 	outs := make([]outcome, len(scs))
 	nouts := make([]nOutcome, len(scs))
 	souts := make([]scaleOutcome, len(scs))
-	const batch = 48
+	const batch = 72
 	aborted := false
 	for lo := 0; lo < len(scs) && !aborted; lo += batch {
 		hi := lo + batch
